@@ -44,13 +44,29 @@ mod c16 {
         c: Option<i16>,
     }
 
+    #[derive(SerializeValue, DeserializeValue, PartialEq, Debug, Clone)]
+    #[scylla(crate = crate)]
+    struct WithOptional {
+        a: i32,
+        #[scylla(allow_missing)]
+        b: Option<i64>,
+        c: Option<i16>,
+    }
+
     const PERMS: [[usize; 3]; 6] = [[0, 1, 2], [0, 2, 1], [1, 0, 2], [1, 2, 0], [2, 0, 1], [2, 1, 0]];
 
     fn native(i: usize) -> ColumnType<'static> {
         // type of declared field i: a:int, b:bigint, c:smallint
         ColumnType::Native(match i { 0 => NativeType::Int, 1 => NativeType::BigInt, _ => NativeType::SmallInt })
     }
-    fn udt(names: [&'static str; 3], order: [usize; 3]) -> ColumnType<'static> {
+    // ColumnType is a recursive enum whose drop glue CBMC unwinds to the bound at every drop: types, contexts and
+    // results are therefore leaked on purpose (ManuallyDrop) — they own nothing that matters to the obligations.
+    use std::mem::ManuallyDrop as MD;
+
+    fn udt(names: [&'static str; 3], order: [usize; 3]) -> MD<ColumnType<'static>> {
+        MD::new(udt_raw(names, order))
+    }
+    fn udt_raw(names: [&'static str; 3], order: [usize; 3]) -> ColumnType<'static> {
         ColumnType::UserDefinedType {
             frozen: false,
             definition: Arc::new(UserDefinedType {
@@ -103,11 +119,12 @@ mod c16 {
         let v = ByName { a: kani::any(), b: kani::any(), c: kani::any() };
         let typ = udt(["a", "b", "c"], order);
         let mut buf = Vec::new();
-        v.serialize(&typ, CellWriter::new(&mut buf)).unwrap();
+        let r = MD::new(v.serialize(&typ, CellWriter::new(&mut buf)));
+        assert!(r.is_ok());
         assert!(buf == spec_udt(order, v.a, v.b, v.c), "fields emitted in database order");
-        <ByName as DeserializeValue>::type_check(&typ).unwrap();
-        let back = <ByName as DeserializeValue>::deserialize(&typ, Some(FrameSlice::new_borrowed(&buf[4..]))).unwrap();
-        assert!(back == v, "decode(encode(v)) == v");
+        assert!(MD::new(<ByName as DeserializeValue>::type_check(&typ)).is_ok());
+        let back = MD::new(<ByName as DeserializeValue>::deserialize(&typ, Some(FrameSlice::new_borrowed(&buf[4..]))));
+        assert!(matches!(&*back, Ok(b) if *b == v), "decode(encode(v)) == v");
     }
 
     /// C16.udt.enforce_order — the ordered flavour accepts precisely the declared order
@@ -120,10 +137,10 @@ mod c16 {
         let v = Ordered { a: kani::any(), b: kani::any(), c: kani::any() };
         let typ = udt(["a", "b", "c"], order);
         let mut buf = Vec::new();
-        let r = v.serialize(&typ, CellWriter::new(&mut buf));
+        let r = MD::new(v.serialize(&typ, CellWriter::new(&mut buf)));
         let declared = order == [0, 1, 2];
         assert!(r.is_ok() == declared, "ordered mode accepts precisely the declared order");
-        assert!(<Ordered as DeserializeValue>::type_check(&typ).is_ok() == declared);
+        assert!(MD::new(<Ordered as DeserializeValue>::type_check(&typ)).is_ok() == declared);
         if declared {
             assert!(buf == spec_udt(order, v.a, v.b, v.c));
         }
@@ -140,10 +157,10 @@ mod c16 {
         // database names of declared fields a,b,c are "x","b","a"
         let typ = udt(["x", "b", "a"], order);
         let mut buf = Vec::new();
-        v.serialize(&typ, CellWriter::new(&mut buf)).unwrap();
+        assert!(MD::new(v.serialize(&typ, CellWriter::new(&mut buf))).is_ok());
         assert!(buf == spec_udt(order, v.a, v.b, v.c));
-        let back = <Renamed as DeserializeValue>::deserialize(&typ, Some(FrameSlice::new_borrowed(&buf[4..]))).unwrap();
-        assert!(back == v);
+        let back = MD::new(<Renamed as DeserializeValue>::deserialize(&typ, Some(FrameSlice::new_borrowed(&buf[4..]))));
+        assert!(matches!(&*back, Ok(b) if *b == v));
     }
 
     /// C16.udt.missing_and_extra — default attributes: a database field unknown to the struct is rejected on
@@ -154,17 +171,82 @@ mod c16 {
     #[kani::stub(alloc::fmt::format, empty_string)]
     fn c16_udt_missing_field_rejected() {
         let v = ByName { a: kani::any(), b: kani::any(), c: kani::any() };
-        let typ = ColumnType::UserDefinedType {
+        let typ = MD::new(ColumnType::UserDefinedType {
             frozen: false,
             definition: Arc::new(UserDefinedType {
                 name: Cow::Borrowed("t"),
                 keyspace: Cow::Borrowed("ks"),
                 field_types: vec![(Cow::Borrowed("a"), native(0)), (Cow::Borrowed("zz"), native(1)), (Cow::Borrowed("c"), native(2))],
             }),
-        };
+        });
         let mut buf = Vec::new();
-        assert!(v.serialize(&typ, CellWriter::new(&mut buf)).is_err(), "unknown database field / missing struct field rejected");
-        assert!(<ByName as DeserializeValue>::type_check(&typ).is_err());
+        assert!(MD::new(v.serialize(&typ, CellWriter::new(&mut buf))).is_err(), "a struct field missing from the database type is rejected");
+        assert!(MD::new(<ByName as DeserializeValue>::type_check(&typ)).is_err());
+    }
+
+    /// C16.udt.excess_field — default attributes: a database UDT field the struct does not know (at ANY of the 4
+    /// positions, combined with any order of the known ones) gets a NULL cell in its own position and shifts nothing;
+    /// reading ignores it.
+    #[kani::proof]
+    #[kani::unwind(20)]
+    #[kani::stub(std::rt::thread_cleanup, noop)]
+    #[kani::stub(alloc::fmt::format, empty_string)]
+    fn c16_udt_excess_field_any_position() {
+        let order = any_perm();
+        let pos: usize = kani::any();
+        kani::assume(pos <= 3);
+        let v = ByName { a: kani::any(), b: kani::any(), c: kani::any() };
+        let names = ["a", "b", "c"];
+        let mut fields: Vec<(Cow<'static, str>, ColumnType<'static>)> = Vec::new();
+        let mut expect_body: Vec<u8> = Vec::new();
+        let mut k = 0;
+        let mut i = 0;
+        while i < 4 {
+            if i == pos {
+                fields.push((Cow::Borrowed("d"), ColumnType::Native(NativeType::Int)));
+                expect_body.extend_from_slice(&(-1i32).to_be_bytes());
+            } else {
+                fields.push((Cow::Borrowed(names[order[k]]), native(order[k])));
+                put_field(&mut expect_body, order[k], v.a, v.b, v.c);
+                k += 1;
+            }
+            i += 1;
+        }
+        let typ = MD::new(ColumnType::UserDefinedType {
+            frozen: false,
+            definition: Arc::new(UserDefinedType { name: Cow::Borrowed("t"), keyspace: Cow::Borrowed("ks"), field_types: fields }),
+        });
+        let mut buf = Vec::new();
+        assert!(MD::new(v.serialize(&typ, CellWriter::new(&mut buf))).is_ok(), "excess database fields are accepted by default");
+        assert!(buf.len() == 4 + expect_body.len() && buf[4..] == expect_body[..], "NULL in the excess field's own position, nothing shifted");
+        let back = MD::new(<ByName as DeserializeValue>::deserialize(&typ, Some(FrameSlice::new_borrowed(&buf[4..]))));
+        assert!(matches!(&*back, Ok(b) if *b == v), "excess field ignored on read");
+    }
+
+    /// C16.udt.allow_missing — a field marked allow_missing is filled from the like-named database field wherever the
+    /// database lists it (all 6 orders), and defaults only when the database type really lacks it.
+    #[kani::proof]
+    #[kani::unwind(20)]
+    #[kani::stub(std::rt::thread_cleanup, noop)]
+    #[kani::stub(alloc::fmt::format, empty_string)]
+    fn c16_udt_allow_missing_all_orders() {
+        let order = any_perm();
+        let v = WithOptional { a: kani::any(), b: kani::any(), c: kani::any() };
+        let typ = udt(["a", "b", "c"], order);
+        // bytes of the database value, independent of the struct
+        let mut body = Vec::new();
+        let mut i = 0;
+        while i < 3 {
+            match order[i] {
+                0 => { body.extend_from_slice(&4i32.to_be_bytes()); body.extend_from_slice(&v.a.to_be_bytes()); }
+                1 => match v.b { Some(x) => { body.extend_from_slice(&8i32.to_be_bytes()); body.extend_from_slice(&x.to_be_bytes()); } None => body.extend_from_slice(&(-1i32).to_be_bytes()) },
+                _ => match v.c { Some(x) => { body.extend_from_slice(&2i32.to_be_bytes()); body.extend_from_slice(&x.to_be_bytes()); } None => body.extend_from_slice(&(-1i32).to_be_bytes()) },
+            }
+            i += 1;
+        }
+        assert!(MD::new(<WithOptional as DeserializeValue>::type_check(&typ)).is_ok());
+        let back = MD::new(<WithOptional as DeserializeValue>::deserialize(&typ, Some(FrameSlice::new_borrowed(&body))));
+        assert!(matches!(&*back, Ok(b) if *b == v), "every field, optional or not, is filled from the like-named database field");
     }
 
     /// C16.row.by_name — derived row binding: columns in any order
@@ -177,24 +259,25 @@ mod c16 {
         let v = ByName { a: kani::any(), b: kani::any(), c: kani::any() };
         let names = ["a", "b", "c"];
         let ts = TableSpec::borrowed("ks", "t");
-        let specs = [
+        let specs = MD::new([
             ColumnSpec::borrowed(names[order[0]], native(order[0]), ts.clone()),
             ColumnSpec::borrowed(names[order[1]], native(order[1]), ts.clone()),
             ColumnSpec::borrowed(names[order[2]], native(order[2]), ts.clone()),
-        ];
-        let ctx = RowSerializationContext::from_specs(&specs);
+        ]);
+        let specs: &[ColumnSpec; 3] = &specs;
+        let ctx = RowSerializationContext::from_specs(specs);
         let mut buf = Vec::new();
         let mut w = RowWriter::new(&mut buf);
-        SerializeRow::serialize(&v, &ctx, &mut w).unwrap();
+        assert!(MD::new(SerializeRow::serialize(&v, &ctx, &mut w)).is_ok());
         assert!(w.value_count() == 3);
         let mut expect = Vec::new();
         put_field(&mut expect, order[0], v.a, v.b, v.c);
         put_field(&mut expect, order[1], v.a, v.b, v.c);
         put_field(&mut expect, order[2], v.a, v.b, v.c);
         assert!(buf == expect, "each value in the database's column position");
-        <ByName as DeserializeRow>::type_check(&specs).unwrap();
-        let back = <ByName as DeserializeRow>::deserialize(ColumnIterator::new(&specs, FrameSlice::new_borrowed(&buf))).unwrap();
-        assert!(back == v);
+        assert!(MD::new(<ByName as DeserializeRow>::type_check(specs)).is_ok());
+        let back = MD::new(<ByName as DeserializeRow>::deserialize(ColumnIterator::new(specs, FrameSlice::new_borrowed(&buf))));
+        assert!(matches!(&*back, Ok(b) if *b == v));
     }
 
     /// canary
@@ -207,7 +290,7 @@ mod c16 {
         let v = ByName { a: kani::any(), b: kani::any(), c: kani::any() };
         let typ = udt(["a", "b", "c"], [1, 0, 2]);
         let mut buf = Vec::new();
-        v.serialize(&typ, CellWriter::new(&mut buf)).unwrap();
+        let _ = MD::new(v.serialize(&typ, CellWriter::new(&mut buf)));
         assert!(buf == spec_udt([0, 1, 2], v.a, v.b, v.c));
     }
 }
